@@ -187,7 +187,11 @@ func instrument(fset *token.FileSet, f *ast.File, info *types.Info, rel string, 
 			if _, inSelect := c.Parent().(*ast.CommClause); inSelect {
 				return true
 			}
-			c.Replace(&ast.ExprStmt{X: call("Send", s.Chan, s.Value)})
+			fn := "Send"
+			if inGo > 0 {
+				fn = "SendSpawned"
+			}
+			c.Replace(&ast.ExprStmt{X: call(fn, s.Chan, s.Value)})
 			st.Sends++
 			changed = true
 		case *ast.ForStmt:
